@@ -30,6 +30,8 @@ THRESHOLDS = {
     "reduction_factor_finite": 0.5,
     "exact_errors_finite": 0.5,
     "exact_errors_present_after_iterations": 0.5,
+    # after a stop by tolerance: |reported - recomputed from solution()| / recomputed, both error norms (observed <= 1e-12)
+    "reported_errors_describe_returned_solution": 1e-6,
     "cli_outcome_clean": 0.5,
     "parser_refuses_bad_value": 0.5,
     "printed_statistics_finite": 0.5,
